@@ -185,7 +185,7 @@ def build(spec: Spec) -> Built:
     classes: list[type] = []
     mod = sys.modules[__name__]
     for i, c in enumerate(spec.classes):
-        base = ABC if c.parent is None else classes[c.parent]
+        base = (ABC if c.abstract else object) if c.parent is None else classes[c.parent]
         if c.parent is not None and c.parent >= i:
             raise ValueError("parents must precede children")
         name = f"{c.name}"
